@@ -248,7 +248,14 @@ class Gen:
                 self.st("decl :=" if kind < 3 else "decl var")
                 return ("%s := %s" if kind < 3 else "var %s = %s") % (name, e)
             if kind == 5:
-                e = self.list_expr(sc)
+                ls0 = sc.all('l')
+                if ls0 and r.chance(1, 2):
+                    # a list built by + from a list that may have grown by append: the result is a NEW list, however
+                    # often the same left operand is extended (two results from one operand must not share storage)
+                    self.st("list-concat")
+                    e = "%s + %s" % (r.choice(ls0), self.list_expr(sc))
+                else:
+                    e = self.list_expr(sc)
                 sc.vars[name] = 'l'
                 return "%s := %s" % (name, e)
             if kind == 6:
